@@ -209,3 +209,23 @@ def huge_lengths(ctx, whats, jobs=4):
         run_harness(ctx, exe, [w], label="asm", timeout=max(60, ctx.remaining()))
     parallel(one, whats, jobs=jobs)
     ctx.assumptions.append("lengths at and beyond 2^32: one call of 2^32 + 40 bytes per function against an independent streaming 64-bit reference (itself cross-checked against ref.c); x86-64 back end only")
+
+
+MID_LENGTHS = [131073, (1 << 20) + 5, (1 << 24) + 3]
+
+
+def mid_lengths(ctx, whats, backends=("asm", "c32")):
+    """every tier: one call per listed function with lengths of 128 KiB+1, 1 MiB+5 and 16 MiB+3 (17-, 20- and 24-bit counters and buffers) against the streaming reference"""
+    import build
+    jobs = []
+    for be in backends:
+        lib = build.build_lib(be, opt="-O2")
+        exe = build.build_prog("huge", ["harness/huge.c", "harness/sysrand.c", "ref/ref.c"], lib, opt="-O2")
+        for w in whats:
+            for L in MID_LENGTHS:
+                if be != "asm" and L > (1 << 21) and not ctx.thorough:
+                    continue
+                jobs.append((exe, [w, L], be))
+    parallel(lambda j: run_harness(ctx, j[0], j[1], label=j[2], timeout=max(60, ctx.remaining())), jobs)
+    ctx.stats["mid_length_calls"] = ctx.stats.get("mid_length_calls", 0) + len(jobs)
+    ctx.assumptions.append("moderately long inputs: %s bytes per function on back ends %s against an independent streaming 64-bit reference" % (MID_LENGTHS, list(backends)))
